@@ -563,7 +563,7 @@ Fixpoint compute_sum_loop (sum : Z) (count : Z) (vs : list sqlvalue) : res (Z * 
   | v :: rest =>
       match v with
       | VInteger z | VBigint z | VSmallint z => compute_sum_loop (fadd b64 sum (f_of_Z b64 z)) (count + 1) rest
-      | VFloat x => compute_sum_loop (fadd b64 sum (f64_of_f32 x)) (count + 1) rest
+      | VFloat x | VReal x => compute_sum_loop (fadd b64 sum (f64_of_f32 x)) (count + 1) rest   (* Real: /repo bda84434 *)
       | VDouble x | VNumeric x => compute_sum_loop (fadd b64 sum x) (count + 1) rest
       | VNull => compute_sum_loop sum count rest
       | _ => Err EUnsupported
